@@ -147,6 +147,8 @@ func (m *mixInst) Body() {
 		vrt.Go(func() { a.run(e) })
 	}
 	vrt.Join()
+	// every asynchronous delivery started above must be able to finish: Wait returns
+	e.bus.Wait()
 }
 
 func (m *mixInst) Outcome() string { return m.st }
@@ -267,6 +269,7 @@ func (m *sqlInst) Body() {
 		vrt.Go(f)
 	}
 	vrt.Join()
+	bus.Wait()
 }
 
 func (m *sqlInst) Outcome() string { return m.st }
